@@ -2,7 +2,7 @@
 (* Validates outputs of the real genomic-model classes.  kind "predict": Z, u (additive), d (dominance, *)
 (* zeros for the additive model), b (intercept per trait), observed integer-valued outputs:             *)
 (*   gebv[i][t], gegv[i][t], varA[t], varG[t] (times n^2), vara[t] (genic, times n^2), bulnan[t],        *)
-(*   bul[t] = <<num, den>>, fa / da counts [l][t], fafreq2n / dafreq2n (freq * 2n), flags faavail,       *)
+(*   bul[t] = <<num, den>>, fa / da counts [l][t], fafreq2n / dafreq2n (freq * ploidy * n), flags faavail,       *)
 (*   fafixed, fapoly, daavail, dafixed, dapoly, nafixed, napoly, labelsok, lat                           *)
 (* kind "ridge": y, Z integers; ymeanN = round(beta * n), polymask observed zero effects, ZtZ, Zty, yy   *)
 EXTENDS LinModel, Json, IOUtils, TLC
@@ -20,7 +20,9 @@ PredictVerdict(c) ==
         p == Len(c.Z[1])
         T == 1..Len(c.b)
         L == 1..p
+        P == c.ploidy
     IN IF c.err # "none" THEN "exception-on-valid-input"
+       ELSE IF \E a \in 1..n : \E l \in L : c.Z[a][l] \notin 0..P THEN "harness-dosage-out-of-range"
        ELSE IF ~c.lat THEN "value-not-on-integer-lattice"
        ELSE IF ~c.labelsok THEN "output-rows-do-not-carry-input-labels"
        ELSE IF \E a \in 1..n : \E t \in T : c.gebv[a][t] # Gebv(c.Z, c.u, c.b, a, t) THEN "gebv"
@@ -30,16 +32,16 @@ PredictVerdict(c) ==
        ELSE IF c.r2on /\ \E t \in T : ~c.r2nan[t] /\ ~RatEq(c.r2[t], <<SSTn(c, t) - Len(c.Z) * SSE(c, t), SSTn(c, t)>>) THEN "score"
        ELSE IF \E t \in T : c.varA[t] # VarA(c.Z, c.u, c.b, t) THEN "var_A"
        ELSE IF \E t \in T : c.varG[t] # VarG(c.Z, c.u, c.d, c.b, t) THEN "var_G"
-       ELSE IF \E t \in T : c.vara[t] # VarGenic(c.Z, c.u, t) THEN "var_a"
-       ELSE IF \E t \in T : c.bulnan[t] # (VarGenic(c.Z, c.u, t) = 0) THEN "bulmer-undefined-exactly-when-genic-variance-is-zero"
-       ELSE IF c.bulon /\ \E t \in T : ~c.bulnan[t] /\ ~RatEq(c.bul[t], <<VarA(c.Z, c.u, c.b, t), VarGenic(c.Z, c.u, t)>>) THEN "bulmer"
-       ELSE IF \E l \in L : \E t \in T : c.fa[l][t] # FaCount(c.Z, c.u, l, t) THEN "facount"
-       ELSE IF \E l \in L : \E t \in T : c.da[l][t] # DaCount(c.Z, c.u, l, t) THEN "dacount"
-       ELSE IF \E l \in L : \E t \in T : c.fafreq2n[l][t] # FaCount(c.Z, c.u, l, t) \/ c.dafreq2n[l][t] # DaCount(c.Z, c.u, l, t) THEN "fafreq-dafreq"
-       ELSE IF \E l \in L : \E t \in T : c.faavail[l][t] # (FaCount(c.Z, c.u, l, t) > 0) \/ c.daavail[l][t] # (DaCount(c.Z, c.u, l, t) > 0) THEN "availability-flags"
-       ELSE IF \E l \in L : \E t \in T : c.fafixed[l][t] # (FaCount(c.Z, c.u, l, t) = 2 * n) \/ c.dafixed[l][t] # (DaCount(c.Z, c.u, l, t) = 2 * n) THEN "fixation-flags"
-       ELSE IF \E l \in L : \E t \in T : c.fapoly[l][t] # (c.u[l][t] # 0 /\ Poly(c.Z, l)) \/ c.dapoly[l][t] # (c.u[l][t] # 0 /\ Poly(c.Z, l)) THEN "polymorphism-flags"
-       ELSE IF \E l \in L : \E t \in T : c.nafixed[l][t] # (c.u[l][t] = 0 /\ ~Poly(c.Z, l)) \/ c.napoly[l][t] # (c.u[l][t] = 0 /\ Poly(c.Z, l)) THEN "neutral-allele-flags"
+       ELSE IF \E t \in T : c.vara[t] # VarGenicP(c.Z, c.u, t, P) THEN "var_a"
+       ELSE IF \E t \in T : c.bulnan[t] # (VarGenicP(c.Z, c.u, t, P) = 0) THEN "bulmer-undefined-exactly-when-genic-variance-is-zero"
+       ELSE IF c.bulon /\ \E t \in T : ~c.bulnan[t] /\ ~RatEq(c.bul[t], <<VarA(c.Z, c.u, c.b, t), VarGenicP(c.Z, c.u, t, P)>>) THEN "bulmer"
+       ELSE IF \E l \in L : \E t \in T : c.fa[l][t] # FaCountP(c.Z, c.u, l, t, P) THEN "facount"
+       ELSE IF \E l \in L : \E t \in T : c.da[l][t] # DaCountP(c.Z, c.u, l, t, P) THEN "dacount"
+       ELSE IF \E l \in L : \E t \in T : c.fafreq2n[l][t] # FaCountP(c.Z, c.u, l, t, P) \/ c.dafreq2n[l][t] # DaCountP(c.Z, c.u, l, t, P) THEN "fafreq-dafreq"
+       ELSE IF \E l \in L : \E t \in T : c.faavail[l][t] # (FaCountP(c.Z, c.u, l, t, P) > 0) \/ c.daavail[l][t] # (DaCountP(c.Z, c.u, l, t, P) > 0) THEN "availability-flags"
+       ELSE IF \E l \in L : \E t \in T : c.fafixed[l][t] # (FaCountP(c.Z, c.u, l, t, P) = P * n) \/ c.dafixed[l][t] # (DaCountP(c.Z, c.u, l, t, P) = P * n) THEN "fixation-flags"
+       ELSE IF \E l \in L : \E t \in T : c.fapoly[l][t] # (c.u[l][t] # 0 /\ PolyP(c.Z, l, P)) \/ c.dapoly[l][t] # (c.u[l][t] # 0 /\ PolyP(c.Z, l, P)) THEN "polymorphism-flags"
+       ELSE IF \E l \in L : \E t \in T : c.nafixed[l][t] # (c.u[l][t] = 0 /\ ~PolyP(c.Z, l, P)) \/ c.napoly[l][t] # (c.u[l][t] = 0 /\ PolyP(c.Z, l, P)) THEN "neutral-allele-flags"
        ELSE "ok"
 
 RidgeVerdict(c) ==
